@@ -174,6 +174,7 @@ func TestC18Copy(t *testing.T) {
 		}
 
 		inPlace := 0
+		srcTypeScribbled := false
 		n := rapid.IntRange(1, 12).Draw(t, "nmut")
 
 		for i := 0; i < n; i++ {
@@ -203,6 +204,10 @@ func TestC18Copy(t *testing.T) {
 
 			op := rapid.SampledFrom(ops).Draw(t, "op")
 			what := op + " on the " + xname
+
+			if x == src && strings.HasPrefix(op, "type-") || x == src && strings.HasSuffix(op, "-map-delete") {
+				srcTypeScribbled = true
+			}
 
 			if p := oracle.Try(func() {
 				switch op {
@@ -337,6 +342,42 @@ func TestC18Copy(t *testing.T) {
 		labels := []string{fmt.Sprintf("wrapped:%v", wrappedSrc), fmt.Sprintf("new:%v", useNew)}
 		if inPlace > 0 {
 			labels = append(labels, "in-place-mutation")
+		}
+
+		// One more New or Copy from the source, after everything that
+		// happened to both sides: a resource of the source's type as it is now
+		// (unless the harness wrote into that type behind the library's back).
+		if !srcTypeScribbled {
+			var third jsonapi.Resource
+
+			again := rapid.SampledFrom([]string{"New", "Copy"}).Draw(t, "again")
+
+			if p := oracle.Try(func() {
+				if again == "New" {
+					third = src.(jsonapi.Copier).New()
+				} else {
+					third = src.(jsonapi.Copier).Copy()
+				}
+			}); p != nil {
+				t.Fatalf("C18 violated: a second %s of the source %s\ncase: %s\nhistory: %s", again, p, desc, strings.Join(history, "; "))
+			}
+
+			var srcType, thirdType, srcSnap, thirdSnap string
+
+			if p := oracle.Try(func() {
+				srcType, thirdType = typeContent(src.GetType()), typeContent(third.GetType())
+				srcSnap, thirdSnap = oracle.SnapshotResource(src, false), oracle.SnapshotResource(third, false)
+			}); p != nil {
+				t.Fatalf("C18 violated: reading the source and its second %s %s\ncase: %s\nhistory: %s", again, p, desc, strings.Join(history, "; "))
+			}
+
+			if srcType != thirdType {
+				t.Fatalf("C18 violated: a second %s of the source is not of the source's type\nsource: %s\n%s:    %s\ncase: %s\nhistory: %s", again, srcType, again, thirdType, desc, strings.Join(history, "; "))
+			}
+
+			if again == "Copy" && srcSnap != thirdSnap {
+				t.Fatalf("C18 violated: a second copy of the source differs from it\nsource: %s\ncopy:   %s\ncase: %s\nhistory: %s", srcSnap, thirdSnap, desc, strings.Join(history, "; "))
+			}
 		}
 
 		r.Case(desc+" history: "+strings.Join(history, "; "), hasShapes && inPlace > 0 && !useNew, labels...)
